@@ -14,6 +14,8 @@ An *init* is::
      "heights": [..],                    one per block, dummy last
      "fuel_mat": "UZr" | "UraniumOxide", "clad_mat": "HT9" | "Inconel625",
      "bond": bool, "tight": bool,
+     "multi": bool,                      fuel od 1.05: overlaps two solids of the block below (linkage must be refused)
+     "shield_mult": float | None,        other pin multiplicity in the shield block (fuel block unlinked from it)
      "targets": {"<block index>": "<component name>"},   explicit targets (others: default rule)
      "thot": "varied" | "flat",          flat: every component enters at 450 C
      "reuse": bool}                      also drive a twin assembly with ONE reused changer
@@ -42,7 +44,7 @@ def block_table(init, kind):
     inter = build.comp("intercoolant", "Hexagon", "Sodium", 450.0, _T(init, 450.0), ip="duct.op", op=PITCH, mult=1.0)
     cool = build.comp("coolant", "DerivedShape", "Sodium", 450.0, _T(init, 450.0))
     if kind == "fuel":
-        od = 0.999 if init.get("tight") else 0.86
+        od = 0.999 if init.get("tight") else (1.05 if init.get("multi") else 0.86)
         cs = [build.comp("fuel", "Circle", fuelm, 25.0, _T(init, 600.0), id=0.0, od=od, mult=NPINS)]
         if init.get("bond"):
             cs.append(build.comp("bond", "Circle", "Sodium", 450.0, _T(init, 450.0), id="fuel.od", od="clad.id", mult="fuel.mult"))
@@ -58,7 +60,7 @@ def block_table(init, kind):
         ]
     if kind == "shield":
         return [
-            build.comp("shield", "Circle", "HT9", 25.0, _T(init, 600.0), id=0.0, od=0.9, mult=NPINS),
+            build.comp("shield", "Circle", "HT9", 25.0, _T(init, 600.0), id=0.0, od=0.9, mult=float(init.get("shield_mult") or NPINS)),
             build.comp("clad", "Circle", clad, 25.0, _T(init, 470.0), id=1.0, od=1.09, mult="shield.mult"),
             cool,
             duct,
